@@ -61,6 +61,30 @@ theorem defaults_valid (hasMkl cplx : Bool) :
     (dispatch ⟨true, hasMkl⟩ defaultFft).isOk = true ∧ (getDtype defaultPrecision cplx).isOk = true := by
   cases hasMkl <;> cases cplx <;> decide
 
+/-- **The propagator's own dispatch site** (`FresnelPropagator.propagate`, multislice.py) obeys the same rules: the configured
+library is the one used on either route, and a configured library that is missing is a RuntimeError on both routes. -/
+theorem propagate_route (env : Env) (cfg : String) (isNp : Bool) :
+    (∀ r, propagateRoute env cfg isNp = .ok r →
+        (r = .cachedFftw ∧ cfg = "fftw" ∧ isNp = true ∧ env.hasFftw = true) ∨ (∃ b, r = .dispatched b ∧ dispatch env cfg = .ok b)) ∧
+    (cfg = "fftw" → env.hasFftw = false → propagateRoute env cfg isNp = .error "runtime_error") := by
+  constructor
+  · intro r h
+    unfold propagateRoute at h
+    by_cases ht : propagatorUsesCachedFftw cfg isNp = true
+    · simp only [ht, if_true] at h
+      by_cases hf : env.hasFftw = true
+      · simp only [hf, if_true, Except.ok.injEq] at h
+        simp only [propagatorUsesCachedFftw, Bool.and_eq_true, decide_eq_true_eq] at ht
+        exact Or.inl ⟨h.symm, ht.1, ht.2, hf⟩
+      · simp [hf] at h
+    · simp only [ht] at h
+      cases hd : dispatch env cfg with
+      | error e => simp [hd, Except.map] at h
+      | ok b => simp [hd, Except.map] at h; exact Or.inr ⟨b, h.symm, rfl⟩
+  · intro hc hf
+    subst hc
+    cases isNp <;> simp [propagateRoute, propagatorUsesCachedFftw, hf, dispatch, isMkl, isFftw, Except.map]
+
 /-! ### precision -/
 
 /-- `get_dtype` on the two supported precisions. -/
